@@ -73,6 +73,9 @@ def programs(seed, n):
 def run(ctx):
     q = ctx.quick
     vlib.mc(ctx, "MCRepo.tla", "MCRepoRebuildQuick.cfg" if q else "MCRepoRebuild.cfg", workers=8, timeout=2400)
+    # repair-index itself (list packs, walk the index files, re-read trailers, replace changed files): Rebuilt / Complete
+    vlib.mc(ctx, "RepairIndex.tla", "MCRepairIndex.cfg", workers=4, timeout=600)
+    vlib.mc(ctx, "RepairIndex.tla", "MCRepairIndexReadAll.cfg", workers=4, timeout=600)
     progs = programs(ctx.seed, 40 if q else 1500)
     by_id = {p["id"]: p for p in progs}
     recs, r = run_trace(ctx, progs, "main", timeout=6000)
